@@ -142,6 +142,16 @@ def impl(inp):
     inner, w = build(script, dyn=(drive[0] == 3))
     cls = wrapstub.DynRecorder if drive[0] == 3 else wrapstub.Recorder
     rec = cls(w, inner, Codec())
+    if drive[0] != 3 and (len(drive[1]) if drive[0] == 0 else drive[2]) % 2 == 0:
+        # half of the cases: a second wrapper instance is used in between (everybody sends to and
+        # receives from everybody); instances must not influence each other
+        _, w2 = build(script)
+
+        def chatty(wr, k):
+            oth = [o for o in wr.agents if o != k and hasattr(wr.agents[o], "action_space")
+                   and hasattr(wr.agents[o], "observation_space")]
+            return {"action": 1, "send": {o: 1 for o in oth}, "receive": {o: 1 for o in oth}}
+        rec.decoy = wrapstub.Decoy(w2, chatty)
     if drive[0] == 0:
         play_direct(rec, drive[1])
     else:
